@@ -685,4 +685,28 @@ theorem mkChunkCDS_base (x : CdsD) (ch ch' : Model.Chunk.Chunk) (k k' : ChunkCDS
   rfl
 
 
+/-! ### all chunk-relative constructors at once -/
+
+/-- the inputs of `from_chunk_relative_location`: a feature / CDS / transcript on a directional strand whose blocks
+    (exons and CDS blocks) lie inside the chunk and do not touch; a coding transcript's CDS part is accepted by the
+    CDS constructor.  The FEATURE constructor additionally needs a chunk on the plus strand (F-C07e). -/
+def AltDesc (d : Desc) (ch : Model.Chunk.Chunk) : Prop :=
+  match d with
+  | .feat f => (f.st = .plus ∨ f.st = .minus) ∧ AltBlocks f.blocks ch ∧ ch.wst = .plus
+  | .cds x => (x.st = .plus ∨ x.st = .minus) ∧ AltBlocks (x.exons.map (·.1)) ch
+  | .tx t => (t.st = .plus ∨ t.st = .minus) ∧ AltBlocks t.exons ch ∧
+      (t.cds ≠ [] → AltBlocks (t.cds.map (·.1)) ch ∧ ∃ k, mkChunkCDS t.cdsD ch = .ok k)
+  | _ => False
+
+theorem descFromChunkRelative_id (d : Desc) (ch : Model.Chunk.Chunk) (hch : ChunkOk ch) (hd : AltDesc d ch) :
+    descFromChunkRelative d ch = .ok d := by
+  cases d with
+  | feat f => exact feat_fromChunkRelative f ch hch hd.2.2 hd.1 hd.2.1
+  | cds x => exact cds_fromChunkRelative x ch hch hd.1 hd.2
+  | tx t => exact tx_fromChunkRelative t ch hch hd.1 hd.2.1 hd.2.2
+  | gene _ => exact absurd hd id
+  | fic _ => exact absurd hd id
+  | ac _ => exact absurd hd id
+
+
 end BioCantor.Proofs.Chunk
